@@ -43,7 +43,7 @@ func runC05Traces(f *common.Flags, res *common.Result, m *mdl, n int) {
 		m.ask("reset")
 		hstr := histString(hs)
 		bad := func(i int, what, impl, model string) {
-			res.Violate(common.Violation{Kind: "correspondence", Oracle: "op-trace:" + what,
+			violate(res, common.Violation{Kind: "correspondence", Oracle: "op-trace:" + what,
 				Input: map[string]string{"history": hstr, "step": fmt.Sprint(i)}, Impl: trunc(impl), Model: trunc(model),
 				Key: "c05t:" + what + ":" + hstr, Detail: fmt.Sprintf("step %d (%s) of the history, through the os shim", i, hs[i].Kind)})
 		}
@@ -73,7 +73,7 @@ func runC05Traces(f *common.Flags, res *common.Result, m *mdl, n int) {
 					return
 				}
 				if resp.FdLeak != "" {
-					res.Violate(common.Violation{Kind: "impl-violation", Oracle: "fd-baseline",
+					violate(res, common.Violation{Kind: "impl-violation", Oracle: "fd-baseline",
 						Input: map[string]string{"history": hstr, "step": fmt.Sprint(i)}, Detail: fmt.Sprintf("step %d (%s) returned with descriptors still open: %s", i, h.Kind, resp.FdLeak),
 						Key: "c05t:fd:" + hstr})
 				}
